@@ -2,7 +2,6 @@ package props
 
 import (
 	"bytes"
-	"crypto/sha256"
 	"fmt"
 	"io"
 
@@ -263,16 +262,35 @@ func senderTraceSpec(tr []mon.Event, init bool, out []byte, icv int) string {
 	if init {
 		enc, mac = "Encr_i", "Integ_i"
 	}
-	if len(tr) != 4 {
-		return fmt.Sprintf("expected 4 events (Encrypt, Reset, Write, Sum), got %d", len(tr))
-	}
-	want := []struct{ obj, op string }{{enc, "Encrypt"}, {mac, "Reset"}, {mac, "Write"}, {mac, "Sum"}}
-	for i, w := range want {
-		if tr[i].Obj != w.obj || tr[i].Op != w.op {
-			return fmt.Sprintf("event %d is %s, expected %s.%s", i, tr[i], w.obj, w.op)
+	// the statement fixes WHICH objects are used and WHAT the checksum covers, not how many calls are made:
+	// only own-direction objects, no Decrypt, at least one Encrypt before the checksum is taken, and the MAC input of
+	// the final computation (everything written since its Reset) is exactly the output minus the checksum
+	sawEncrypt := false
+	for i, e := range tr {
+		if e.Obj == "Prf_d" {
+			continue
+		}
+		if e.Obj != enc && e.Obj != mac {
+			return fmt.Sprintf("event %d uses %s; a sender in this role may only use %s and %s", i, e, enc, mac)
+		}
+		if e.Op == "Decrypt" {
+			return "Decrypt during protection"
+		}
+		if e.Op == "Encrypt" {
+			sawEncrypt = true
 		}
 	}
-	if len(out) >= icv && tr[2].Hash != sha256.Sum256(out[:len(out)-icv]) {
+	if !sawEncrypt {
+		return "no Encrypt on the sender's own-direction cipher object"
+	}
+	data, clean, found := mon.MACInput(tr, mac)
+	if !found {
+		return "no MAC computed on the sender's own-direction integrity object"
+	}
+	if !clean {
+		return "MAC computation does not start with Reset"
+	}
+	if len(out) >= icv && !bytes.Equal(data, out[:len(out)-icv]) {
 		return "MAC was not computed over exactly the output minus the checksum"
 	}
 	return ""
